@@ -424,6 +424,61 @@ fn explore(ctx: &Ctx, rep: &mut Report) {
         w.flush().unwrap();
     }
     rep.merge(r);
+    // Scale family: streams with more nodes than one 64-bit word of the position tables holds. `n` leading
+    // `kNN: vNN` pairs slide a nested block mapping (a container that shares its start byte with its first key)
+    // across every node index modulo 64 — the reverse lookup "text position -> deepest node starting there" has to
+    // follow a run of nodes with the same start across word boundaries. Single- and multi-document streams.
+    let nmax = ctx.pick(70usize, 140usize);
+    let r = par_range_in(ctx, "scale/pairs-then-nested", (nmax as u64 + 1) * 2, 1, |i, rep| {
+        let n = (i / 2) as usize;
+        let multi = i % 2 == 1;
+        let mut text = String::new();
+        let mut marks: Vec<Mark> = Vec::new();
+        let mut paths: Vec<Vec<Step>> = Vec::new();
+        let mut docs: Vec<Value> = Vec::new();
+        let mut doc_idx = 0usize;
+        if multi {
+            text.push_str("---\n[a, {b: c}, d]\n---\n");
+            docs.push(json!(["a", {"b": "c"}, "d"]));
+            doc_idx = 1;
+        }
+        let mut obj = serde_json::Map::new();
+        let mut add = |text: &mut String, marks: &mut Vec<Mark>, paths: &mut Vec<Vec<Step>>, path: Vec<Step>, tok: &str, key: bool| {
+            let start = text.len() as u32;
+            text.push_str(tok);
+            paths.push(path);
+            marks.push(Mark { start, end: text.len() as u32, pid: (paths.len() - 1) as u16, key, style: Style::Plain });
+        };
+        for k in 0..n {
+            let (key, val) = (format!("k{k:02}"), format!("v{k:02}"));
+            add(&mut text, &mut marks, &mut paths, vec![Step::Idx(doc_idx), Step::Key(key.clone())], &key, true);
+            text.push_str(": ");
+            add(&mut text, &mut marks, &mut paths, vec![Step::Idx(doc_idx), Step::Key(key.clone())], &val, false);
+            text.push('\n');
+            obj.insert(key, json!(val));
+        }
+        add(&mut text, &mut marks, &mut paths, vec![Step::Idx(doc_idx), Step::Key("tail".into())], "tail", true);
+        text.push_str(":\n  ");
+        for (j, (k, v)) in [("name", "deep"), ("other", "x")].iter().enumerate() {
+            if j > 0 {
+                text.push_str("  ");
+            }
+            let p = vec![Step::Idx(doc_idx), Step::Key("tail".into()), Step::Key(k.to_string())];
+            add(&mut text, &mut marks, &mut paths, p.clone(), k, true);
+            text.push_str(": ");
+            add(&mut text, &mut marks, &mut paths, p, v, false);
+            text.push('\n');
+        }
+        obj.insert("tail".into(), json!({"name": "deep", "other": "x"}));
+        docs.push(Value::Object(obj));
+        let docs = Value::Array(docs);
+        rep.input();
+        rep.distinct(&("pairs-then-nested", n, multi));
+        check_doc(text.as_bytes(), &marks, &paths, &docs, "scale/pairs-then-nested", rep, None);
+    });
+    let mut r = r;
+    r.mark_exhaustive("scale/pairs-then-nested", &format!("n = 0..={nmax} leading pairs then a nested block mapping, as a single document and after a leading flow document; every offset of every token"));
+    rep.merge(r);
     rep.extra.insert("qualifying_offsets".into(), json!(offs.load(std::sync::atomic::Ordering::Relaxed)));
 }
 
